@@ -78,9 +78,24 @@ func genContent(ch *core.Chooser, hosts []string, bufHint int, maxLines int) str
 			// longer than the read buffer: 1..3x the knob, or 4097..9000
 			// bytes for the default 4 KiB buffer
 			var ln int
+			b0 := 4096
 			if bufHint > 0 && bufHint < 4096 {
-				ln = bufHint + ch.Intn("content.longlen", 2*bufHint+2)
-			} else {
+				b0 = bufHint
+			}
+			switch m := ch.Intn("content.longmode", 8); {
+			case m <= 3:
+				// the line (with its prefix/suffix and newline) straddles a
+				// multiple of the buffer size by -2..+2 bytes
+				ln = b0*(1+ch.Intn("content.longmult", 3)) - 20 + ch.Intn("content.longdelta", 24)
+				if ln < 1 {
+					ln = 1
+				}
+			case m == 4 && b0 == 4096 && ch.Intn("content.huge", 8) == 7:
+				// longer than 64 KiB: the limit of a default bufio.Scanner
+				ln = 65536 + ch.Intn("content.longlen", 9000)
+			case b0 < 4096:
+				ln = b0 + ch.Intn("content.longlen", 2*b0+2)
+			default:
 				ln = 4097 + ch.Intn("content.longlen", 4904)
 			}
 			switch ch.Intn("content.longkind", 4) {
@@ -112,6 +127,9 @@ func genContent(ch *core.Chooser, hosts []string, bufHint int, maxLines int) str
 		ch.End()
 	}
 	s := b.String()
+	if ch.Intn("content.bom", 12) == 11 {
+		s = "\ufeff" + s
+	}
 	if ch.Intn("content.finalnl", 2) == 1 {
 		// no final newline
 		s = strings.TrimSuffix(strings.TrimSuffix(s, "\n"), "\r")
